@@ -4,8 +4,9 @@ Confirms (in the agent's worktree /tmp/ref-<PID>) that each patch applies and bo
 /verif/benign/<PID>-<k>/ and records which checks (if any) raise an alarm on it — every alarm here is a false alarm of ours."""
 import json, os, subprocess, sys, shutil, tempfile, re, glob
 pid = sys.argv[1]
-ROUND2 = "--round2" in sys.argv          # held-out second corpus: worktree /tmp/ref2-<PID>, stored under benign2/
-wt = ("/tmp/ref2-%s" if ROUND2 else "/tmp/ref-%s") % pid
+ROUND2 = "--round2" in sys.argv
+ROUND3 = "--round3" in sys.argv
+wt = ("/tmp/ref3-%s" if ROUND3 else "/tmp/ref2-%s" if ROUND2 else "/tmp/ref-%s") % pid
 env = dict(os.environ, CARGO_TARGET_DIR=wt + "/target", CARGO_NET_OFFLINE="true")
 
 
@@ -16,7 +17,7 @@ def sh(cmd, **kw):
 
 for sd in sorted(glob.glob(os.path.join(wt, "ref[0-9]"))):
     k = sd[-1]
-    out = "/verif/%s/%s-%s" % ("benign2" if ROUND2 else "benign", pid, k)
+    out = "/verif/%s/%s-%s" % ("benign3" if ROUND3 else "benign2" if ROUND2 else "benign", pid, k)
     res = {}
     sh("git checkout -- . ; git clean -fdq -e 'ref*' -e target")
     rc, o = sh("git apply %s/patch.diff" % sd)
@@ -35,7 +36,7 @@ for sd in sorted(glob.glob(os.path.join(wt, "ref[0-9]"))):
         subprocess.run(["rsync", "-a", "--exclude", "target", "--exclude", ".git", "/repo/", t + "/"], check=True)
         r = subprocess.run(["patch", "-s", "-p1", "-d", t, "-i", os.path.join(out, "patch.diff")], capture_output=True, text=True)
         if r.returncode == 0:
-            r = subprocess.run(["/verif/check", "all"], env=dict(os.environ, VERIF_REPO=t), capture_output=True, text=True)
+            r = subprocess.run(["/verif/check", "all"], env=dict(os.environ, VERIF_REPO=t, VERIF_EVIDENCE=t + "/.verif-evidence"), capture_output=True, text=True)
             last = []
             for line in r.stdout.splitlines():
                 if line.strip().startswith("violated:"):
